@@ -76,14 +76,32 @@ func solve(workDir, name, script string, timeoutS int) *SolveResult {
 	_ = os.WriteFile(file, []byte(script), 0o644)
 	res := &SolveResult{Status: "unknown", Bytes: len(script), Outputs: map[string]string{}}
 	start := time.Now()
-	quick := 3
+	quick := 4
 	if timeoutS < quick {
 		quick = timeoutS
 	}
-	if st, _ := runSolver(context.Background(), solvers[0], file, quick); st == "unsat" || st == "sat" {
-		res.Status, res.Solver = st, solvers[0].name
-		res.Ms = time.Since(start).Milliseconds()
-		return res
+	// phase 1: z3-new and cvc5 side by side, briefly (each decides many goals the other does not)
+	{
+		ctx1, cancel1 := context.WithCancel(context.Background())
+		type a1 struct{ solver, status string }
+		ch1 := make(chan a1, 2)
+		for _, sp := range solvers[:2] {
+			sp := sp
+			go func() {
+				st, _ := runSolver(ctx1, sp, file, quick)
+				ch1 <- a1{sp.name, st}
+			}()
+		}
+		for i := 0; i < 2; i++ {
+			a := <-ch1
+			if a.status == "unsat" || a.status == "sat" {
+				res.Status, res.Solver = a.status, a.solver
+				res.Ms = time.Since(start).Milliseconds()
+				cancel1()
+				return res
+			}
+		}
+		cancel1()
 	}
 	ctx, cancel := context.WithCancel(context.Background())
 	defer cancel()
@@ -121,10 +139,48 @@ func solve(workDir, name, script string, timeoutS int) *SolveResult {
 	return res
 }
 
-// dischargeAll solves all obligations in parallel.
+// dischargeAll solves all obligations in parallel. Proof obligations that no solver settles
+// within the time limit are tried once more, a few at a time and with three times the limit (only when at most eight are left: more than that is no load problem): a
+// loaded machine must not turn a slow proof into an alarm, and the extra time is spent only when
+// something is already wrong or slow.
 func dischargeAll(workDir string, obls []*Obligation, timeoutS int) {
-	var wg sync.WaitGroup
-	sem := make(chan struct{}, 12)
+	run := func(idx []int, par int, tmo int, tag string) {
+		var wg sync.WaitGroup
+		sem := make(chan struct{}, par)
+		for _, i := range idx {
+			o := obls[i]
+			wg.Add(1)
+			sem <- struct{}{}
+			go func(i int, o *Obligation) {
+				defer wg.Done()
+				defer func() { <-sem }()
+				if o.Cover {
+					// vacuity guard: the full context must not be refutable; if the solvers cannot
+					// settle that quickly, the context without its quantified assumptions must be satisfiable
+					ct := tmo/4 + 1
+					full := solve(workDir, fmt.Sprintf("o%04df%s", i, tag), o.vc.scriptOpt(o.Upto, o.Path, o.Goal, false, false), ct)
+					if full.Status == "unsat" || full.Status == "sat" {
+						o.Result = full
+						o.Result.Script = filepath.Join(workDir, fmt.Sprintf("o%04df%s.smt2", i, tag))
+						return
+					}
+					script := o.vc.scriptOpt(o.Upto, o.Path, o.Goal, false, true)
+					o.Result = solve(workDir, fmt.Sprintf("o%04d%s", i, tag), script, ct)
+					o.Result.Script = filepath.Join(workDir, fmt.Sprintf("o%04d%s.smt2", i, tag))
+					return
+				}
+				script := o.vc.scriptOpt(o.Upto, o.Path, o.Goal, false, false)
+				prev := o.Result
+				o.Result = solve(workDir, fmt.Sprintf("o%04d%s", i, tag), script, tmo)
+				o.Result.Script = filepath.Join(workDir, fmt.Sprintf("o%04d%s.smt2", i, tag))
+				if prev != nil {
+					o.Result.Ms += prev.Ms
+				}
+			}(i, o)
+		}
+		wg.Wait()
+	}
+	var first []int
 	for i, o := range obls {
 		if o.Goal.S == "true" && !o.Cover {
 			o.Result = &SolveResult{Status: "unsat", Solver: "syntactic"}
@@ -134,25 +190,17 @@ func dischargeAll(workDir string, obls []*Obligation, timeoutS int) {
 			o.Result = &SolveResult{Status: "unsat", Solver: "syntactic"}
 			continue
 		}
-		wg.Add(1)
-		sem <- struct{}{}
-		go func(i int, o *Obligation) {
-			defer wg.Done()
-			defer func() { <-sem }()
-			if o.Cover {
-				// vacuity guard: the full context must not be refutable; if the solvers cannot
-				// settle that, the context without its quantified assumptions must be satisfiable
-				full := solve(workDir, fmt.Sprintf("o%04df", i), o.vc.scriptOpt(o.Upto, o.Path, o.Goal, false, false), timeoutS/3+1)
-				if full.Status == "unsat" || full.Status == "sat" {
-					o.Result = full
-					o.Result.Script = filepath.Join(workDir, fmt.Sprintf("o%04df.smt2", i))
-					return
-				}
-			}
-			script := o.vc.scriptOpt(o.Upto, o.Path, o.Goal, false, o.Cover)
-			o.Result = solve(workDir, fmt.Sprintf("o%04d", i), script, timeoutS)
-			o.Result.Script = filepath.Join(workDir, fmt.Sprintf("o%04d.smt2", i))
-		}(i, o)
+		first = append(first, i)
 	}
-	wg.Wait()
+	run(first, 12, timeoutS, "")
+	var again []int
+	for _, i := range first {
+		o := obls[i]
+		if !o.Cover && o.Result != nil && o.Result.Status != "unsat" && o.Result.Status != "sat" {
+			again = append(again, i)
+		}
+	}
+	if len(again) > 0 && len(again) <= 8 && os.Getenv("GOCV_NORETRY") == "" {
+		run(again, 4, 3*timeoutS, "r")
+	}
 }
